@@ -660,7 +660,10 @@ class FactorialCutoff(Family):
 # ======================================================================================== 5. student errors
 
 SUBSETS = [c for r in range(1, 5) for c in itertools.combinations(KEYS, r)]
-BAD_LIMITS = (('noninteger', '1.5'), ('noninteger', '1/2'), ('noninteger', 'x+0.5'), ('complex', 'i'),
+BAD_LIMITS = (('noninteger', '1.5'), ('noninteger', '1/2'), ('noninteger', 'x+0.5'),
+              # non-integers within rounding distance of an integer (0.3/0.1 = 2.9999999999999996, 0.1*3*10 = 3.0000000000000004)
+              ('noninteger', '0.3/0.1'), ('noninteger', '0.1*3*10'), ('noninteger', '3+1e-10'), ('noninteger', '1e-10'),
+              ('complex', 'i'),
               ('complex', '1+i'), ('complex', '2*i'), ('instructor-var', 'c'), ('instructor-var', 'c-5'),
               ('instructor-var', 'pi-pi'), ('blank', ''))
 BAD_SUMMANDS = (('instructor-var', 'c*{v}+x'), ('instructor-var', '5*{v}+x+0*c'), ('instructor-var', '5*{v}+x+0*pi'),
